@@ -13,7 +13,7 @@
 
 From Coq Require Import PrimFloat.
 From Coq Require Import ZArith List Bool Reals Lra Permutation.
-From BZ Require Import Base.Ops Gen.Utils Gen.Point Gen.BBox Gen.Line Gen.Quad Gen.Cubic Hand.Bounds Proofs.C02.
+From BZ Require Import Base.Ops Gen.Utils Gen.Point Gen.BBox Gen.Line Gen.Quad Gen.Cubic Hand.Bounds Proofs.C02 Proofs.Bridge.
 Import ListNotations.
 Open Scope R_scope.
 
@@ -65,6 +65,25 @@ Proof. exact arch_needs_linear_branch. Qed.
 Theorem C02_arch_genuine :
   genuine arch.
 Proof. exact arch_genuine. Qed.
+(* the hand models ARE the definitions regenerated from the source (Proofs/Bridge.v), for every scalar carrier *)
+Theorem C02_extend_pt_is_generated :
+  forall (T : Type) (O : Ops T) (b : option (bbox T)) (p : pt T), extend_pt O b p = BBox_extend_Point O b p.
+Proof. exact @extend_pt_gen. Qed.
+Theorem C02_extend_box_is_generated :
+  forall (T : Type) (O : Ops T) (b : option (bbox T)) (o : bbox T), extend_box O b o = BBox_extend_BBox O b o.
+Proof. exact @extend_box_gen. Qed.
+Theorem C02_Line_bounds_is_generated :
+  forall (T : Type) (O : Ops T) (s : seg2 T), Hand.Bounds.Line_bounds O s = Gen.Line.Line_bounds O s.
+Proof. exact @Line_bounds_gen. Qed.
+Theorem C02_Quad_bounds_is_generated :
+  forall (T : Type) (O : Ops T) (s : seg3 T), Hand.Bounds.Quad_bounds O s = Gen.Quad.Quad_bounds O s.
+Proof. exact @Quad_bounds_gen. Qed.
+Theorem C02_Cubic_bounds_is_generated :
+  forall (T : Type) (O : Ops T) (s : seg4 T), Hand.Bounds.Cubic_bounds O s = Gen.Cubic.Cubic_bounds O s.
+Proof. exact @Cubic_bounds_gen. Qed.
+Theorem C02_path_bounds_is_generated :
+  forall (T : Type) (O : Ops T) (boxes : list (bbox T)), path_bounds O boxes = fold_left (BBox_extend_BBox O) boxes None.
+Proof. exact @path_bounds_gen. Qed.
 
 Print Assumptions C02_quadraticRoots_spec.
 Print Assumptions C02_quadraticRoots_near_linear.
@@ -82,3 +101,9 @@ Print Assumptions C02_path_bounds_is_join.
 Print Assumptions C02_path_bounds_some.
 Print Assumptions C02_arch_needs_linear_branch.
 Print Assumptions C02_arch_genuine.
+Print Assumptions C02_extend_pt_is_generated.
+Print Assumptions C02_extend_box_is_generated.
+Print Assumptions C02_Line_bounds_is_generated.
+Print Assumptions C02_Quad_bounds_is_generated.
+Print Assumptions C02_Cubic_bounds_is_generated.
+Print Assumptions C02_path_bounds_is_generated.
